@@ -1,5 +1,5 @@
 //! In-memory file store with a write log.  Paths are compared as strings.
-use std::io;
+use crate::io;
 use std::path::Path;
 
 pub struct Store {
